@@ -19,10 +19,12 @@ import (
 	"testing"
 	"time"
 
+	"github.com/nspcc-dev/bbolt"
 	"github.com/nspcc-dev/neo-go/pkg/crypto/keys"
 	iec "github.com/nspcc-dev/neofs-node/internal/ec"
 	"github.com/nspcc-dev/neofs-node/internal/verifkit"
 	clientcore "github.com/nspcc-dev/neofs-node/pkg/core/client"
+	bscommon "github.com/nspcc-dev/neofs-node/pkg/local_object_storage/blobstor/common"
 	"github.com/nspcc-dev/neofs-node/pkg/local_object_storage/blobstor/fstree"
 	"github.com/nspcc-dev/neofs-node/pkg/local_object_storage/engine"
 	meta "github.com/nspcc-dev/neofs-node/pkg/local_object_storage/metabase"
@@ -30,8 +32,8 @@ import (
 	"github.com/nspcc-dev/neofs-node/pkg/services/object/common"
 	"github.com/nspcc-dev/neofs-node/pkg/services/object/util"
 	sessionstate "github.com/nspcc-dev/neofs-node/pkg/util/state/session"
-	apistatus "github.com/nspcc-dev/neofs-sdk-go/client/status"
 	"github.com/nspcc-dev/neofs-sdk-go/client"
+	apistatus "github.com/nspcc-dev/neofs-sdk-go/client/status"
 	"github.com/nspcc-dev/neofs-sdk-go/container"
 	cid "github.com/nspcc-dev/neofs-sdk-go/container/id"
 	"github.com/nspcc-dev/neofs-sdk-go/netmap"
@@ -73,8 +75,8 @@ func (n *vf23Net) GetNodesForObject(a oid.Address) ([][]netmap.NodeInfo, []uint,
 	}
 	return p.lists, p.reps, p.ec, nil
 }
-func (n *vf23Net) IsLocalNodePublicKey(pub []byte) bool { return bytes.Equal(pub, n.localPub) }
-func (n *vf23Net) CurrentEpoch() uint64                 { return 10 }
+func (n *vf23Net) IsLocalNodePublicKey(pub []byte) bool        { return bytes.Equal(pub, n.localPub) }
+func (n *vf23Net) CurrentEpoch() uint64                        { return 10 }
 func (n *vf23Net) GetToken(user.ID) *sessionstate.PrivateToken { return nil }
 func (n *vf23Net) FindTokenBySubjects([]sessionv2.Target) *sessionstate.PrivateToken {
 	return nil
@@ -87,6 +89,7 @@ func (vf23NoConns) Get(context.Context, netmap.NodeInfo) (clientcore.MultiAddres
 }
 
 type vf23Writer struct {
+	mu        sync.Mutex
 	hdr       *object.Object
 	hdrWrites int
 	buf       []byte
@@ -94,14 +97,187 @@ type vf23Writer struct {
 }
 
 func (w *vf23Writer) WriteHeader(h *object.Object) error {
+	w.mu.Lock()
+	defer w.mu.Unlock()
 	w.hdrWrites++
 	w.hdr = h
 	return nil
 }
 func (w *vf23Writer) WriteChunk(p []byte) error {
+	w.mu.Lock()
+	defer w.mu.Unlock()
 	w.chunks++
 	w.buf = append(w.buf, p...)
 	return nil
+}
+
+// vf23ECTransport stands in for the gRPC response transport the object server hands to
+// Service.Get for EC containers (Prm.WithECTransport). It follows the contract written at
+// getsvc.GetECRequestTransport and makes the same storage calls with the same arguments
+// as the server's implementation (part header+payload via the engine's EC part getter,
+// ranges via StorageEngine.ReadECPartRange(off, ln) passed through untouched); whatever
+// it is told to copy goes to the same client writer the service itself writes to.
+type vf23ECTransport struct {
+	mu     sync.Mutex
+	out    *vf23Writer
+	cnr    cid.ID
+	root   oid.ID
+	hdrs   int
+	ranges int
+	aborts int
+}
+
+func (x *vf23ECTransport) CopyRemoteECPartParentHeaderAndPayload(context.Context, clientcore.MultiAddressClient, iec.PartInfo) (bool, uint64, uint64, uint64, error) {
+	return false, 0, 0, 0, nil // remote nodes are unreachable: never gets a connection
+}
+
+func (x *vf23ECTransport) CopyRemoteECPartRange(context.Context, clientcore.MultiAddressClient, iec.PartInfo, uint64, uint64, bool, <-chan bool) (uint64, error) {
+	return 0, nil
+}
+
+func (x *vf23ECTransport) CopyLocalECPartParentHeaderAndPayload(ctx context.Context, storage *engine.StorageEngine, pi iec.PartInfo) (bool, uint64, uint64, uint64, error) {
+	hdr, rc, err := storage.GetECPart(ctx, x.cnr, x.root, pi, false)
+	if err != nil {
+		var se *object.SplitInfoError
+		if errors.Is(err, apistatus.ErrObjectAlreadyRemoved) || errors.As(err, &se) {
+			return false, 0, 0, 0, err
+		}
+		return false, 0, 0, 0, nil
+	}
+	defer rc.Close()
+	if hdr.Type() == object.TypeLink {
+		return false, 0, 0, 0, ErrLinker
+	}
+	par := hdr.Parent()
+	if par == nil {
+		return false, 0, 0, 0, nil
+	}
+	pld, err := io.ReadAll(rc)
+	if err != nil {
+		return false, 0, 0, 0, nil
+	}
+	x.mu.Lock()
+	defer x.mu.Unlock()
+	x.hdrs++
+	_ = x.out.WriteHeader(par.CutPayload())
+	_ = x.out.WriteChunk(pld)
+	return true, par.PayloadSize(), hdr.PayloadSize(), uint64(len(pld)), nil
+}
+
+func (x *vf23ECTransport) CopyLocalECPartRange(ctx context.Context, storage *engine.StorageEngine, pi iec.PartInfo, off, ln uint64, ch <-chan bool) (uint64, error) {
+	stream, err := storage.ReadECPartRange(ctx, x.cnr, x.root, pi, off, ln, make([]byte, 64<<10), nil)
+	if err != nil {
+		if errors.Is(err, apistatus.ErrObjectAlreadyRemoved) {
+			return 0, err
+		}
+		return 0, nil
+	}
+	if stream == nil {
+		return 0, nil
+	}
+	defer stream.Close()
+	if ch != nil {
+		select {
+		case <-ctx.Done():
+			return 0, ctx.Err()
+		case abort := <-ch:
+			if abort {
+				x.mu.Lock()
+				x.aborts++
+				x.mu.Unlock()
+				return 0, ErrAborted
+			}
+		}
+	}
+	pld, err := io.ReadAll(stream)
+	x.mu.Lock()
+	defer x.mu.Unlock()
+	x.ranges++
+	_ = x.out.WriteChunk(pld)
+	if err != nil {
+		return uint64(len(pld)), nil
+	}
+	return ln, nil
+}
+
+// vf23EOFStorage wraps the BLOB storage of a shard so that every payload stream delivers its
+// last bytes together with io.EOF (legal for an io.Reader, never done by plain files).
+type vf23EOFStorage struct{ bscommon.Storage }
+
+type vf23DataEOF struct {
+	src  io.ReadCloser
+	next []byte
+	err  error
+}
+
+func vf23WrapEOF(rc io.ReadCloser) io.ReadCloser {
+	if rc == nil {
+		return nil
+	}
+	return &vf23DataEOF{src: rc}
+}
+
+func (d *vf23DataEOF) Close() error { return d.src.Close() }
+func (d *vf23DataEOF) Read(p []byte) (int, error) {
+	if len(p) == 0 {
+		return 0, nil
+	}
+	// keep one look-ahead byte so that the end of the stream is known when the last data is handed out
+	if d.next == nil && d.err == nil {
+		b := make([]byte, 1)
+		n, err := io.ReadFull(d.src, b)
+		d.next, d.err = b[:n], err
+	}
+	if len(d.next) == 0 {
+		if d.err == io.ErrUnexpectedEOF {
+			return 0, io.EOF
+		}
+		return 0, d.err
+	}
+	p[0] = d.next[0]
+	n, err := d.src.Read(p[1:])
+	total := 1 + n
+	// refill the look-ahead
+	d.next = d.next[:0]
+	if err == nil {
+		b := make([]byte, 1)
+		k, e := io.ReadFull(d.src, b)
+		if k == 1 {
+			d.next = b
+		} else {
+			err = e
+		}
+	}
+	if err != nil {
+		if err == io.ErrUnexpectedEOF {
+			err = io.EOF
+		}
+		d.err = err
+		d.next = []byte{}
+		return total, err
+	}
+	return total, nil
+}
+
+func (s vf23EOFStorage) GetRangeStream(a oid.Address, rng bscommon.PayloadRange, readHeader bool) (*object.Object, uint64, io.ReadCloser, error) {
+	h, n, rc, err := s.Storage.GetRangeStream(a, rng, readHeader)
+	return h, n, vf23WrapEOF(rc), err
+}
+func (s vf23EOFStorage) GetStream(a oid.Address) (*object.Object, io.ReadCloser, error) {
+	h, rc, err := s.Storage.GetStream(a)
+	return h, vf23WrapEOF(rc), err
+}
+func (s vf23EOFStorage) ReadObject(a oid.Address, buf []byte) (int, io.ReadCloser, error) {
+	n, rc, err := s.Storage.ReadObject(a, buf)
+	return n, vf23WrapEOF(rc), err
+}
+func (s vf23EOFStorage) ReadPayloadRange(a oid.Address, off, ln uint64, buf []byte, fn func([]byte) error) (io.ReadCloser, error) {
+	rc, err := s.Storage.ReadPayloadRange(a, off, ln, buf, fn)
+	return vf23WrapEOF(rc), err
+}
+func (s vf23EOFStorage) ReadObjectParts(buf []byte, a oid.Address, rng bscommon.PayloadRange, fn func([]byte) error) (int, io.ReadCloser, error) {
+	n, rc, err := s.Storage.ReadObjectParts(buf, a, rng, fn)
+	return n, vf23WrapEOF(rc), err
 }
 
 // collector for client-side slicing
@@ -115,7 +291,10 @@ type vf23CollectorW struct {
 func (c *vf23Collector) ObjectPutInit(_ context.Context, hdr object.Object, _ user.Signer, _ client.PrmObjectPutInit) (client.ObjectWriter, error) {
 	return &vf23CollectorW{c: c, hdr: hdr}, nil
 }
-func (w *vf23CollectorW) Write(p []byte) (int, error) { w.buf = append(w.buf, p...); return len(p), nil }
+func (w *vf23CollectorW) Write(p []byte) (int, error) {
+	w.buf = append(w.buf, p...)
+	return len(p), nil
+}
 func (w *vf23CollectorW) ReadFrom(r io.Reader) (int64, error) {
 	b, err := io.ReadAll(r)
 	w.buf = append(w.buf, b...)
@@ -136,9 +315,9 @@ func (w *vf23CollectorW) GetResult() client.ResObjectPut { return client.ResObje
 // ---------------------------------------------------------------------------------
 
 type vf23Fixture struct {
-	Layout     string `json:"layout"`
-	Len        int    `json:"len"`
-	Limit      int    `json:"split_limit,omitempty"`
+	Layout     string   `json:"layout"`
+	Len        int      `json:"len"`
+	Limit      int      `json:"split_limit,omitempty"`
 	Rules      []string `json:"ec_rules,omitempty"`
 	Missing    [][]int  `json:"ec_missing_parts,omitempty"` // per rule (per member for split: same pattern)
 	root       oid.ID
@@ -151,7 +330,9 @@ type vf23Fixture struct {
 	allDataOfRestoringRuleMissing bool
 	// no rule has its part #0 stored
 	part0MissingEverywhere bool
-	lastMember             []byte // payload of the last split member (v1/v2)
+	// unsplit EC object whose payload is so short that some data parts of rule #0 hold zero padding only
+	paddingOnlyDataParts bool
+	lastMember           []byte // payload of the last split member (v1/v2)
 }
 
 func vf23Key(rng *rand.Rand) *keys.PrivateKey {
@@ -315,6 +496,10 @@ func (w *vf23World) build(rng *rand.Rand, layout string, idx int) *vf23Fixture {
 		fx.Len = 1 + rng.IntN(300)
 	default:
 		fx.Len = rng.IntN(64<<10 + 1)
+	}
+	if isEC && !split && rng.IntN(5) == 0 {
+		// payloads of a few bytes per data part: trailing data parts consist of padding only
+		fx.Len = 1 + rng.IntN(2*int(rules[0].DataPartNum)+2)
 	}
 	if split {
 		if strings.HasPrefix(layout, "v1") {
@@ -534,6 +719,10 @@ func (w *vf23World) build(rng *rand.Rand, layout string, idx int) *vf23Fixture {
 			return nil
 		}
 		addPartBoundaries(0, fx.Len)
+		if d := int(rules[0].DataPartNum); fx.Len > 0 {
+			pl := (fx.Len + d - 1) / d
+			fx.paddingOnlyDataParts = pl*(d-1) >= fx.Len
+		}
 	}
 	if os.Getenv("VERIF_DEBUG") != "" {
 		_, err := w.eng.Get(context.Background(), oid.NewAddress(fx.cnr, fx.root))
@@ -683,6 +872,9 @@ func vf23GenRequest(rng *rand.Rand, fx *vf23Fixture, isRep bool) vf23Request {
 		}
 	}
 	rq.Local = isRep && rng.IntN(3) == 0
+	if !isRep && rq.API == "get" && rng.IntN(2) == 0 {
+		rq.API = "get-ec-stream"
+	}
 	return rq
 }
 
@@ -693,14 +885,14 @@ func vf23GenRequest(rng *rand.Rand, fx *vf23Fixture, isRep bool) vf23Request {
 func TestVerif_C23(t *testing.T) {
 	r := verifkit.Start(t, "C23", "exploration")
 	defer r.Finish()
-	nWorlds := r.Pick(4, 60)
-	objsPerWorld := r.Pick(26, 40)
-	readsPerObj := r.Pick(45, 120)
-	layouts := []string{"whole", "v2-link", "v2-nolink", "v1-link", "v1-nolink", "ec", "ec-lossy", "ec-fallback", "ec-split-link", "ec-split-nolink", "ec-split-lossy-link", "ec-split-lossy-nolink", "ec-lossy"}
-	r.SetRule(fmt.Sprintf("%d real StorageEngines (1..2 shards, FSTree+metabase) x %d stored objects in the layouts %v (payload 0..64KiB, split limits 1..4KiB incl. exact multiples, 1..2 EC rules d=1..6 p=1..3, up to p parts of a rule not stored, 'fallback' = rule #0 beyond repair and rule #1 intact) x %d reads each through Service.Get (full and extended ranges: offset/length, inclusive bounds, from, suffix; with and without payload-only) and Service.GetRange (legacy), offsets drawn from member/part boundaries +-1, 0, len-1, len, len+1 and uniformly; distinct = (layout, API, range mode, position class of both ends, result class)", nWorlds, objsPerWorld, layouts, readsPerObj))
+	nWorlds := r.Pick(4, 24)
+	objsPerWorld := r.Pick(30, 45)
+	readsPerObj := r.Pick(45, 100)
+	layouts := []string{"whole", "v2-link", "v2-nolink", "v1-link", "v1-nolink", "ec", "ec-lossy", "ec-fallback", "ec-split-link", "ec-split-nolink", "ec-split-lossy-link", "ec-split-lossy-nolink", "ec-lossy", "ec-split-fallback-link", "ec-split-fallback-nolink"}
+	r.SetRule(fmt.Sprintf("%d real StorageEngines (1..2 shards, FSTree+metabase) x %d stored objects in the layouts %v (payload 0..64KiB, split limits 1..4KiB incl. exact multiples, 1..2 EC rules d=1..6 p=1..3, up to p parts of a rule not stored, 'fallback' = rule #0 beyond repair and rule #1 intact) x %d reads each through Service.Get (full and extended ranges: offset/length, inclusive bounds, from, suffix; with and without payload-only) and Service.GetRange (legacy), full GET of EC objects additionally through a streaming EC transport fake (Prm.WithECTransport), offsets drawn from member/part boundaries +-1, 0, len-1, len, len+1 and uniformly; distinct = (layout, API, range mode, position class of both ends, result class)", nWorlds, objsPerWorld, layouts, readsPerObj))
 	r.Assume("single-node network: the local node holds everything that is stored, every other container node is unreachable")
 	r.Assume("range semantics taken from the API: offset+length beyond the payload, bounds/from starting at or behind the end are unsatisfiable (out of range demanded); inclusive bounds ending behind the payload and from/suffix on an empty payload may be clipped or refused; inverted bounds and zero suffix must fail with any error; zero-length ranges other than 0:0 are not generated")
-	r.Assume("EC GET is driven without the gRPC streaming transport (Prm.WithECTransport unset): the buffered restore path and all range paths of ec.go run, streamECObject does not")
+	r.Assume("the gRPC response transport of streamed EC GETs is an in-process fake written from the contract at getsvc.GetECRequestTransport (local part header+payload, local part ranges passed to StorageEngine.ReadECPartRange untouched, control channel honoured); remote transport calls are never reached because no connection can be made")
 
 	if l := os.Getenv("VERIF_C23_LAYOUTS"); l != "" { // debugging aid
 		layouts = strings.Split(l, ",")
@@ -714,7 +906,7 @@ func TestVerif_C23(t *testing.T) {
 	for wi := 0; wi < nWorlds; wi++ {
 		rng := r.Rand("world", wi)
 		dir := filepath.Join(scratch, fmt.Sprintf("c23-world-%d", wi))
-		w := vf23NewWorld(r, rng, dir)
+		w := vf23NewWorld(r, rng, dir, wi%2 == 1)
 		if w == nil {
 			return
 		}
@@ -732,6 +924,9 @@ func TestVerif_C23(t *testing.T) {
 				if k == 0 {
 					rq = vf23Request{API: "get", Mode: "full"}
 				}
+				if k == 1 && !isRep {
+					rq = vf23Request{API: "get-ec-stream", Mode: "full"}
+				}
 				vf23Read(r, w, fx, rq, caseNo)
 			}
 		}
@@ -744,7 +939,7 @@ func TestVerif_C23(t *testing.T) {
 	}
 }
 
-func vf23NewWorld(r *verifkit.Run, rng *rand.Rand, dir string) *vf23World {
+func vf23NewWorld(r *verifkit.Run, rng *rand.Rand, dir string, eofWithData bool) *vf23World {
 	nodeKey := vf23Key(rng)
 	w := &vf23World{r: r, owner: user.NewAutoIDSignerRFC6979(vf23Key(rng).PrivateKey)}
 	w.local.SetPublicKey(nodeKey.PublicKey().Bytes())
@@ -755,15 +950,21 @@ func vf23NewWorld(r *verifkit.Run, rng *rand.Rand, dir string) *vf23World {
 		elg, _ = zap.NewDevelopment()
 	}
 	w.eng = engine.New(engine.WithLogger(elg))
+	blob := func(s bscommon.Storage) bscommon.Storage { return s }
+	if eofWithData {
+		blob = func(s bscommon.Storage) bscommon.Storage { return vf23EOFStorage{s} }
+		r.Count("worlds_whose_storage_streams_end_with_data+EOF", 1)
+	}
 	for i := 0; i < 1+rng.IntN(2); i++ {
 		_, err := w.eng.AddShard(
 			shard.WithLogger(elg),
-			shard.WithBlobstor(fstree.New(fstree.WithPath(filepath.Join(dir, fmt.Sprintf("fstree%d", i))), fstree.WithDepth(1), fstree.WithNoSync(true))),
+			shard.WithBlobstor(blob(fstree.New(fstree.WithPath(filepath.Join(dir, fmt.Sprintf("fstree%d", i))), fstree.WithDepth(1), fstree.WithNoSync(true)))),
 			shard.WithMetaBaseOptions(
 				meta.WithPath(filepath.Join(dir, fmt.Sprintf("meta%d", i))),
 				meta.WithPermissions(0o700),
 				meta.WithEpochState(vf23Epoch{}),
 				meta.WithMaxBatchDelay(time.Microsecond),
+				meta.WithBoltDBOptions(&bbolt.Options{NoSync: true}),
 			),
 		)
 		if err != nil {
@@ -821,10 +1022,15 @@ func vf23Read(r *verifkit.Run, w *vf23World, fx *vf23Fixture, rq vf23Request, ca
 	addr := oid.NewAddress(fx.cnr, fx.root)
 	out := &vf23Writer{}
 	var err error
+	var tr *vf23ECTransport
 	panicked := r.Guard(desc, func() {
 		switch rq.API {
-		case "get", "get-range-ext":
+		case "get", "get-range-ext", "get-ec-stream":
 			var p Prm
+			if rq.API == "get-ec-stream" {
+				tr = &vf23ECTransport{out: out, cnr: fx.cnr, root: fx.root}
+				p.WithECTransport(tr)
+			}
 			p.SetObjectWriter(out)
 			p.SetCommonParameters(cp)
 			p.WithAddress(addr)
@@ -869,6 +1075,10 @@ func vf23Read(r *verifkit.Run, w *vf23World, fx *vf23Fixture, rq vf23Request, ca
 	key := func(sym string) string {
 		// a few precisely recognisable failure shapes get their own class
 		switch {
+		case rq.API == "get-ec-stream" && fx.paddingOnlyDataParts && err != nil && strings.Contains(err.Error(), "payload overflow"):
+			return "ec|get-ec-stream|short-payload-leaves-padding-only-data-parts|padding-transmitted-then-payload-overflow-error"
+		case rq.API == "get-ec-stream" && fx.paddingOnlyDataParts && sym == "wrong-bytes|extra-bytes" && len(bytes.Trim(out.buf[fx.Len:], "\x00")) == 0:
+			return "ec|get-ec-stream|short-payload-leaves-padding-only-data-parts|zero-padding-appended"
 		case isEC && rq.Mode == "full" && err == nil && len(out.buf) == 0 && fx.Len > 0 && fx.allDataOfRestoringRuleMissing:
 			return "ec|all-data-parts-of-restoring-rule-missing|full-get-returns-empty-object"
 		case isEC && rq.Mode != "full" && err != nil && errors.Is(err, apistatus.ErrObjectNotFound) && fx.part0MissingEverywhere:
@@ -888,7 +1098,28 @@ func vf23Read(r *verifkit.Run, w *vf23World, fx *vf23Fixture, rq vf23Request, ca
 		resClass = "error"
 	}
 	r.Distinct(fmt.Sprintf("%s|%s|%s|%s|%s|%s", fx.Layout, rq.API, rq.Mode, vf23PosClass(rq.A, fx), vf23PosClass(rq.A+rq.B, fx), resClass))
+	r.Seen("result_classes_seen", fx.Layout+":"+resClass)
+	if isEC {
+		nMiss := 0
+		for _, m := range fx.Missing {
+			nMiss += len(m)
+		}
+		if nMiss > 0 {
+			r.Count("reads_of_ec_objects_with_missing_parts", 1)
+		}
+		if fx.paddingOnlyDataParts {
+			r.Count("reads_of_ec_objects_with_padding_only_data_parts", 1)
+		}
+	}
 	r.Count("reads_"+rq.API+"_"+rq.Mode, 1)
+	if tr != nil {
+		r.Count("ec_stream_transport_part0_header+payload_copies", tr.hdrs)
+		r.Count("ec_stream_transport_part_range_copies", tr.ranges)
+		r.Count("ec_stream_transport_aborted_range_copies", tr.aborts)
+		if tr.hdrs == 0 {
+			r.Count("ec_stream_reads_completed_by_buffered_restore_only", 1)
+		}
+	}
 
 	switch {
 	case exp.anyErr:
@@ -952,7 +1183,7 @@ func vf23Read(r *verifkit.Run, w *vf23World, fx *vf23Fixture, rq vf23Request, ca
 				return
 			}
 			r.Count("reads_with_header_checked", 1)
-		} else if rq.API == "get" {
+		} else if rq.API == "get" || rq.API == "get-ec-stream" {
 			r.Violation(key("no-header"), "full GET finished without writing the object header", desc)
 			return
 		}
